@@ -1,5 +1,6 @@
 import XgcmModel.Model.Chunks
 import XgcmModel.Gen.Regex
+import XgcmModel.Proofs.C01
 /-
   C06 — Lazy (dask) execution equals in-memory execution for every chunking.
   What a theorem can carry: the chunk algebra and the overlap decomposition.  That no computation is
@@ -84,6 +85,74 @@ theorem overlap_blocks_eq_global (d : Nat) (g : List α → β) (chunks : List N
     rw [ih (l.drop c) (by simp [List.length_drop]; omega)]
     exact (sten_split d g l c (by omega)).symm
 
+/-- each block returns exactly the cells of its ORIGINAL chunk (the explicit output chunks the wrapper
+    declares): the `d` borrowed cells are consumed by the window -/
+theorem block_output_is_chunk (d : Nat) (g : List α → β) (l : List α) (c : Nat) (h : c + d ≤ l.length) :
+    (sten d g (l.take (c + d))).length = c := by
+  simp [sten_length, List.length_take]; omega
+
+/-- the forward two-point stencil every predefined kernel reduces to is a window function of width 2 -/
+theorem fwd_eq_sten (op : α → α → β) (d0 : α) (l : List α) : fwd op l = sten 1 (win2 op d0) l := by
+  apply List.ext_getElem
+  · simp [sten]
+  · intro k h1 h2
+    have hk : k + 1 < l.length := by simp at h1; omega
+    rw [fwd_getElem]
+    simp only [sten, List.getElem_map, List.getElem_range, win2]
+    congr 1
+    · simp [List.getD_eq_getElem?_getD, List.getElem?_take, List.getElem?_drop]
+      rw [List.getElem?_eq_getElem (by omega)]; rfl
+    · simp [List.getD_eq_getElem?_getD, List.getElem?_take, List.getElem?_drop]
+      rw [List.getElem?_eq_getElem (by omega)]; rfl
+
+/-- **Every predefined kernel, run block by block over ANY chunking of the operated dimension,
+    returns the documented line.**  For each operator and each valid shift that keeps the length
+    (the ones admitted under map_overlap) the kernel selected from the regenerated table has the
+    coordinate-derived widths lo + hi = 1 and the operator's normal-form body; its block-wise
+    evaluation on the padded line over the merged pattern of any composition `chunks` of the n cells
+    equals its undivided evaluation, which is the specification line of C01. -/
+theorem predefined_kernels_blockwise (o : Ops α) (d0 : α) (fn : Func) (f t : Pos) (r : Rule) (fill : α)
+    (hv : validShift f t = true) (hf : f ≠ .inner ∧ f ≠ .outer) (ht : t ≠ .inner ∧ t ≠ .outer)
+    (chunks : List Nat) (xs : List α) (hn : 2 ≤ chunks.sum) (hx : xs.length = chunks.sum) :
+    ∃ e, selectUfunc Gen.gridops fn.toString f t = .ok e ∧ e.lo + e.hi = 1 ∧
+      e.body.eval o (pad1d r fill e.lo e.hi xs) =
+        some (blockwise 1 (win2 (fn.op o) d0) chunks (pad1d r fill e.lo e.hi xs)) ∧
+      blockwise 1 (win2 (fn.op o) d0) chunks (pad1d r fill e.lo e.hi xs) =
+        specLine (fn.op o) r fill f t chunks.sum xs := by
+  obtain ⟨e, hsel, hw, hb⟩ := select_valid fn f t hv
+  have hlo : e.lo = (widthOf f t).1 := by rw [← hw]
+  have hhi : e.hi = (widthOf f t).2 := by rw [← hw]
+  have hsum : e.lo + e.hi = 1 := by
+    rw [hlo, hhi]
+    cases f <;> cases t <;> simp [validShift] at hv <;> simp [widthOf] <;> simp at hf ht
+  have hlen : (pad1d r fill e.lo e.hi xs).length = chunks.sum + 1 := by
+    simp [hx]; omega
+  have hblk := overlap_blocks_eq_global 1 (win2 (fn.op o) d0) chunks (pad1d r fill e.lo e.hi xs) hlen
+  have hxs : xs.length = f.len chunks.sum := by
+    rw [hx]; cases f <;> simp [Pos.len] <;> simp at hf
+  refine ⟨e, hsel, hsum, ?_, ?_⟩
+  · rw [hb, eval_canonicalBody, hblk, fwd_eq_sten _ d0]
+  · rw [hblk, ← fwd_eq_sten, hlo, hhi]
+    exact fwd_pad_eq_spec (fn.op o) r fill f t chunks.sum xs hv hn hxs
+
+/-- cutting a collection of lines into blocks and concatenating gives the collection back … -/
+theorem splitBy_flatten (cs : List Nat) (l : List α) (h : l.length = cs.sum) :
+    (splitBy cs l).flatten = l := by
+  induction cs generalizing l with
+  | nil => simp at h; simp [splitBy, h]
+  | cons c cs ih =>
+    simp only [splitBy, List.flatten_cons]
+    rw [ih (l.drop c) (by simp at h ⊢; omega)]
+    exact List.take_append_drop c l
+
+/-- … so **a kernel that works line by line gives the same lines whether it is handed the whole
+    collection or any chunking of the non-core dimensions, block by block** (dask="parallelized":
+    chunks of the face dimension, of extra dimensions, of the other axes). -/
+theorem parallelized_blocks_eq_global (k : List α → List β) (cs : List Nat) (rows : List (List α))
+    (h : rows.length = cs.sum) :
+    ((splitBy cs rows).map (List.map k)).flatten = rows.map k := by
+  rw [← List.map_flatten, splitBy_flatten cs rows h]
+
 /-- a position keeps the cell count exactly when it is not inner / outer … -/
 theorem length_unchanged_iff (n : Nat) (p : Pos) :
     p.len n = n ↔ (p ≠ .inner ∨ n = 0) ∧ p ≠ .outer := by
@@ -109,6 +178,12 @@ theorem dask_mode_decision (f : String) :
 /-- non-vacuity: uneven chunks with size-1 blocks -/
 example : blockwise 1 (fun w : List Int => w.getD 1 0 - w.getD 0 0) [1, 3, 1] [0, 1, 3, 6, 10, 15] =
     sten 1 (fun w : List Int => w.getD 1 0 - w.getD 0 0) [0, 1, 3, 6, 10, 15] := by
+  decide
+
+/-- non-vacuity of `predefined_kernels_blockwise`: centre → left under the periodic rule, five cells
+    chunked 1 + 3 + 1, and six lines cut 2 + 1 + 3 -/
+example : validShift .center .left = true ∧ (2 : Nat) ≤ [1, 3, 1].sum ∧
+    splitBy [2, 1, 3] [[1], [2], [3], [4], [5], [6]] = [[[1], [2]], [[3]], [[4], [5], [6]]] := by
   decide
 
 end Xgcm.C06
